@@ -20,7 +20,7 @@ package main
 //     attempt  <carrier>,<host>,<scert>
 //              carrier  pipe | tcp | tcp+tls | stdin+tls | wss      (as in authmatrix)
 //              scert    dead (peer accepts the carrier and hangs up) | good | nameonly | iponly |
-//                       wronghost | untrusted | expired
+//                       wronghost | untrusted | expired | exp1m | exp1s | notyet | fresh (c05_pki.go)
 //   client options (one cert.ClientConfig for the whole history) and server options as in authmatrix;
 //   attempts of one history that address the same carrier+certificate share ONE server, i.e. one
 //   cert.ServerConfig sees several handshakes.
@@ -66,7 +66,7 @@ type c05Hist struct {
 
 var (
 	c05HCarriers = []string{"pipe", "tcp", "tcp+tls", "stdin+tls", "wss"}
-	c05HSCerts   = []string{"dead", "good", "nameonly", "iponly", "wronghost", "untrusted", "expired"}
+	c05HSCerts   = []string{"dead", "good", "nameonly", "iponly", "wronghost", "untrusted", "expired", "exp1m", "exp1s", "notyet", "fresh"}
 )
 
 func parseC05Hist(op string) (c05Hist, bool) {
@@ -109,7 +109,7 @@ func (h c05Hist) serverAcceptable(a c05HAttempt) bool {
 	return h.cca == "A" && signer == "A" && !expired && c05in(names, a.host)
 }
 
-func (h c05Hist) clientAcceptable() bool { return h.ccert == "good" && h.sca == "A" }
+func (h c05Hist) clientAcceptable() bool { return c05ClientCertAcceptable(h.ccert) && h.sca == "A" }
 
 // ---- the recording manager: the real cert.ClientConfig, plus a log of what it handed out ----
 
@@ -211,7 +211,7 @@ type c05HServers struct {
 
 func (s *c05HServers) srvCfg(scert string) cert.ServerConfig {
 	p := getC05PKI()
-	leaf := p.server[scert]
+	leaf := p.serverLeaf(scert) // boundary classes: signed now, for this run of the history
 	c := cert.ServerConfig{Config: cert.Config{Certificate: leaf.certPEM, PrivateKey: leaf.keyPEM}, RequireClientCert: s.h.sreq}
 	if s.h.sca == "A" {
 		c.CaCertificate = p.caPEM["A"]
@@ -387,8 +387,9 @@ func (tlshistComp) exec1(op string, deadline time.Duration) (string, string, str
 		cliCfg.CaCertificate = p.caPEM["A"]
 	}
 	if h.ccert != "none" {
-		cliCfg.Certificate = p.client[h.ccert].certPEM
-		cliCfg.PrivateKey = p.client[h.ccert].keyPEM
+		cleaf := p.clientLeaf(h.ccert)
+		cliCfg.Certificate = cleaf.certPEM
+		cliCfg.PrivateKey = cleaf.keyPEM
 	}
 	mgr := &c05RecMgr{inner: cliCfg} // ONE manager for the whole history
 
@@ -525,12 +526,16 @@ func (tlshistComp) Gen(r *Rand, tier string, emit func(string)) {
 		"tcp,127.0.0.1,good", "tcp,localhost,nameonly", "tcp,localhost,dead", "tcp,127.0.0.1,iponly",
 		"pipe,server.test,good", "pipe,other.test,wronghost", "pipe,other.test,good", "pipe,server.test,dead",
 		"stdin+tls,-,good", "stdin+tls,-,untrusted", "stdin+tls,-,dead",
+		// validity boundary (certificates signed at the moment of use, c05_pki.go)
+		"tcp+tls,127.0.0.1,exp1m", "pipe,server.test,exp1s", "tcp,localhost,notyet", "tcp+tls,localhost,fresh",
 	}
 	wide := append(append([]string{}, core...),
 		"tcp+tls,127.0.0.1,untrusted", "tcp+tls,127.0.0.1,expired", "tcp+tls,localhost,expired", "tcp+tls,localhost,wronghost",
 		"tcp,localhost,good", "tcp,127.0.0.1,nameonly", "tcp,localhost,untrusted", "tcp,127.0.0.1,dead", "tcp,localhost,iponly",
 		"pipe,127.0.0.1,good", "pipe,127.0.0.1,nameonly", "pipe,localhost,iponly", "pipe,server.test,untrusted", "pipe,server.test,expired",
 		"wss,localhost,good", "wss,127.0.0.1,nameonly", "wss,localhost,iponly", "wss,127.0.0.1,dead",
+		"tcp,127.0.0.1,exp1m", "pipe,server.test,exp1m", "tcp+tls,localhost,exp1s", "tcp+tls,127.0.0.1,notyet", "pipe,server.test,notyet",
+		"pipe,server.test,fresh", "tcp,127.0.0.1,fresh", "wss,localhost,exp1m", "wss,127.0.0.1,fresh", "stdin+tls,-,exp1m",
 	)
 	base := "0 A none 0 A"
 	set := core
@@ -543,6 +548,17 @@ func (tlshistComp) Gen(r *Rand, tier string, emit func(string)) {
 			// in a fail-over walk the second attempt is made only when the first fails: emit the
 			// list form for every pair, the model says which are skipped
 			emit("list " + base + " " + a + " " + b)
+		}
+	}
+	// client certificates at the validity boundary, towards servers that demand one: every class
+	// through two attempts of different kinds (the second is reached in both modes only when the
+	// first is refused)
+	for _, cc := range c05CCerts {
+		for _, pair := range [][2]string{{"tcp+tls,127.0.0.1,good", "pipe,server.test,good"}, {"tcp,localhost,good", "tcp+tls,localhost,fresh"},
+			{"stdin+tls,-,good", "tcp+tls,127.0.0.1,exp1m"}} {
+			for _, mode := range []string{"seq", "list"} {
+				emit(mode + " 0 A " + cc + " 1 A " + pair[0] + " " + pair[1])
+			}
 		}
 	}
 	nrand := 150
